@@ -14,7 +14,7 @@ RULE = ('per list kind a pool of well-formed element encodings (reference encode
         'element first required to decode alone; then all ordered pairs (pool capped per tier) and random k-tuples (k<=8) are decoded '
         'concatenated and compared with the concatenation of the separate decodings; UPDATE attribute lists are permuted (all '
         'permutations up to 5 attributes, random beyond) and must decode to the same dictionary; unknown TLVs inserted between known '
-        'ones must leave the others unchanged; distinct = distinct (kind, tuple) cases')
+        'ones must leave the others unchanged (link-state: every code within two of a supported one, bodies of 0..17 octets); flowspec rules through MP_REACH and MP_UNREACH; distinct = distinct (kind, tuple) cases')
 ASSUMPTIONS = ['elements from vlib/refenc.py and from the unit-test corpus; only elements that decode alone without error enter a pool (pool sizes are evidence)']
 SHARD_TIMEOUT = {'quick': 400, 'thorough': 2400}
 _N = gen.norm
